@@ -579,16 +579,20 @@ fn value_and_unit<'a>() -> impl Parser<'a, ParserInput<'a>, Literal, ParserError
     ));
 
     // Parse the integer value followed by a unit
-    parse_integer().then(unit).then_ignore(end_expr()).map(
-        |(number_str, unit_str): (&str, &str)| {
-            // Parse the number (removing underscores), defaulting to 1 if parsing fails
+    parse_integer()
+        .then(unit)
+        .then_ignore(end_expr())
+        // a count that does not fit the integer type is not an interval (it
+        // would silently become another count)
+        .filter(|(number_str, _): &(&str, &str)| number_str.replace('_', "").parse::<i64>().is_ok())
+        .map(|(number_str, unit_str): (&str, &str)| {
+            // Parse the number (removing underscores)
             let n = number_str.replace('_', "").parse::<i64>().unwrap_or(1);
             Literal::ValueAndUnit(ValueAndUnit {
                 n,
                 unit: unit_str.to_string(),
             })
-        },
-    )
+        })
 }
 
 pub fn quoted_string<'a>(
